@@ -1,5 +1,5 @@
 /-
-C19 — totality of the parser model (flags, glyph lists, GSUB 1–4): started on the items of the
+C19 — totality of the parser model (flags, glyph lists, GSUB 1–4, GPOS 1–2): started on the items of the
 lexer it returns lookups or an error that carries a line number ≥ 1; in particular no loop of
 the model runs out of fuel (the fuel marker is an error of line 0).  Method: a termination
 measure `mu` (number of non-EOF/error items still deliverable), a state invariant `Good`, and
@@ -531,7 +531,302 @@ theorem tri_readGsub (f : Font) (fuel B : Nat) (h : B ≤ fuel) :
     intro subs _
     exact tri_pure _ _
 
-theorem tri_parseLoop (f : Font) (fuel : Nat) : ∀ (n B : Nat) (acc : List Lookup), B ≤ n → B ≤ fuel →
+theorem tri_optionalIdentifier (B : Nat) (name : List Nat) : Tri B (optionalIdentifier name) d0 pT := by
+  intro s g _
+  obtain ⟨t, s1, h, g1, hm, _, g2, hm2⟩ := readItem_spec s g
+  unfold optionalIdentifier
+  rw [bind_run, h]
+  simp only []
+  by_cases hc : isIdent t name = true
+  · simp only [hc, if_true, pure_run]
+    exact ⟨g1, by show mu s1 + 0 ≤ mu s; omega, trivial⟩
+  · have hc' : isIdent t name = false := by simpa using hc
+    simp only [hc', Bool.false_eq_true, if_false, bind_run, pushBack_run, pure_run]
+    exact ⟨g2, by show mu _ + 0 ≤ mu s; omega, trivial⟩
+
+theorem tri_requiredIdentifier (B : Nat) (name : List Nat) : Tri B (requiredIdentifier name) d0 pT := by
+  unfold requiredIdentifier
+  refine tri_bind (tri_readItem B) ?_
+  intro t _
+  split
+  · exact tri_pure _ _
+  · exact tri_fatal _ _ _ _
+
+/-- `required` of a kind that is not EOF/error consumes an item -/
+theorem tri_required_dec (B : Nat) (typ : Nat) (h0 : typ ≠ tEOF) (h1 : typ ≠ tError) :
+    Tri B (required typ) (fun _ => 1) pT := by
+  intro s g hs
+  obtain ⟨t, s1, h, g1, hm, hl, g2, hm2⟩ := readItem_spec s g
+  unfold required
+  rw [bind_run, h]
+  simp only []
+  by_cases hc : t.typ = typ
+  · have : nt t = 1 := by simp [nt, Tok.terminal, hc, h0, h1]
+    have hne : (t.typ != typ) = false := by simp [hc]
+    simp only [hne, Bool.false_eq_true, if_false, pure_run]
+    exact ⟨g1, by show mu s1 + 1 ≤ mu s; omega, trivial⟩
+  · have hne : (t.typ != typ) = true := by simp [hc]
+    simp only [hne, if_true]
+    have := tri_fatal (α := Tok) B "expected-token" (fun _ => 1) pT s1 g1 (by omega)
+    cases hf : (fatal "expected-token" : PM Tok) s1 with
+    | error e => rw [hf] at this; exact this
+    | ok p =>
+      rw [hf] at this
+      obtain ⟨a, s'⟩ := p
+      have h2 : mu s' + 1 ≤ mu s1 := this.2.1
+      exact ⟨this.1, by show mu s' + 1 ≤ mu s; omega, trivial⟩
+
+theorem tri_readInt16 (B : Nat) : Tri B readInt16 d0 pT := by
+  unfold readInt16
+  refine tri_bind (tri_readItem B) ?_
+  intro t _
+  split
+  · exact tri_fatal _ _ _ _
+  · cases atoi t.bytes with
+    | none => exact tri_fatal _ _ _ _
+    | some v =>
+      simp only []
+      split
+      · exact tri_fatal _ _ _ _
+      · split
+        · exact tri_fatal _ _ _ _
+        · exact tri_pure _ _
+
+theorem valueItem_nonterminal (t : Tok) (h : valueItem t = true) : t.terminal = false := by
+  unfold valueItem isIdent at h
+  simp only [Bool.or_eq_true, Bool.and_eq_true, beq_iff_eq] at h
+  have ht : t.typ = tIdentifier := by
+    rcases h with ((h | h) | h) | h <;> exact h.1
+  simp [Tok.terminal, ht, tIdentifier, tEOF, tError]
+
+theorem tri_valueLoop : ∀ (n B : Nat) (r : VR), B ≤ n → Tri B (valueLoop n r) d0 pT := by
+  intro n
+  induction n with
+  | zero => intro B r h; have : B = 0 := by omega
+            subst this; exact tri_zero _ _ _
+  | succ n ih =>
+    intro B r h
+    unfold valueLoop
+    refine tri_bind (tri_takeIf B valueItem valueItem_nonterminal) ?_
+    intro o _
+    cases o with
+    | none => refine tri_mono (B := B) (by simp) ?_; exact tri_pure _ _
+    | some t =>
+      refine tri_mono (B := B - 1) (by simp) ?_
+      simp only []
+      refine tri_bind (tri_readInt16 _) ?_
+      intro v _
+      have hb : B - 1 - d0 v ≤ n := by simp [d0]; omega
+      split
+      · exact ih _ _ hb
+      split
+      · exact ih _ _ hb
+      split
+      · exact ih _ _ hb
+      · exact ih _ _ hb
+
+theorem tri_readGposValueRecord (fuel B : Nat) (h : B ≤ fuel) : Tri B (readGposValueRecord fuel) d0 pT := by
+  unfold readGposValueRecord
+  refine tri_bind (tri_optionalIdentifier B _) ?_
+  intro b _
+  split
+  · exact tri_pure _ _
+  · refine tri_bind (tri_valueLoop fuel _ _ (by simp [d0]; omega)) ?_
+    intro r _
+    split
+    · exact tri_pure _ _
+    · exact tri_pure _ _
+
+theorem tri_readPairAdjust (fuel B : Nat) (h : B ≤ fuel) : Tri B (readPairAdjust fuel) d0 pT := by
+  unfold readPairAdjust
+  refine tri_bind (tri_readGposValueRecord fuel B h) ?_
+  intro a1 _
+  refine tri_bind (tri_opt0 _ [tAmpersand] (by decide) (by decide)) ?_
+  intro b _
+  split
+  · refine tri_bind (tri_readGposValueRecord fuel _ (by simp [d0]; omega)) ?_
+    intro a2 _
+    exact tri_pure _ _
+  · exact tri_pure _ _
+
+theorem tri_readGlyphSet (f : Font) (fuel B : Nat) (h : B ≤ fuel) : Tri B (readGlyphSet f fuel) d0 pT := by
+  unfold readGlyphSet
+  refine tri_bind (tri_required _ _) ?_
+  intro _ _
+  refine tri_bind (tri_readGlyphList f fuel _ (by simp [d0]; omega)) ?_
+  intro res _
+  refine tri_bind (tri_required _ _) ?_
+  intro _ _
+  exact tri_pure _ _
+
+theorem tri_gpos1Sub (f : Font) (fuel B : Nat) (h : B ≤ fuel) : Tri B (gpos1Sub f fuel) d0 pT := by
+  unfold gpos1Sub
+  refine tri_bind (tri_peek B) ?_
+  intro t _
+  split
+  · refine tri_bind (tri_readGlyphSet f fuel _ (by simp [d0]; omega)) ?_
+    intro from_ _
+    refine tri_bind (tri_required _ _) ?_
+    intro _ _
+    refine tri_bind (tri_readGposValueRecord fuel _ (by simp [d0]; omega)) ?_
+    intro adj _
+    exact tri_pure _ _
+  · refine tri_bind (tri_pairsLoop _ fuel _ [] (by simp [d0]; omega) ?_) ?_
+    · intro m B' hB
+      have hB' : B' ≤ fuel := by simp [d0] at hB; omega
+      refine tri_bind (tri_readGlyphList f fuel B' hB') ?_
+      intro gids _
+      split
+      · exact tri_fatal _ _ _ _
+      · refine tri_bind (tri_required _ _) ?_
+        intro _ _
+        refine tri_bind (tri_readGposValueRecord fuel _ (by simp [d0]; omega)) ?_
+        intro adj _
+        exact tri_pure _ _
+    · intro res _
+      exact tri_pure _ _
+
+theorem tri_classInsert (B : Nat) : ∀ (gs : List Nat) (c : Nat) (tbl : List (Nat × Nat)),
+    Tri B (classInsert gs c tbl) d0 pT := by
+  intro gs
+  induction gs with
+  | nil => intro c tbl; unfold classInsert; exact tri_pure _ _
+  | cons g gs ih =>
+    intro c tbl
+    unfold classInsert
+    split
+    · exact tri_fatal _ _ _ _
+    · exact ih _ _
+
+theorem tri_classLoop (f : Font) (fuel : Nat) : ∀ (n B : Nat) (isFirst : Bool) (tbl : List (Nat × Nat)) (cnt : Nat),
+    B + (if isFirst then 1 else 0) ≤ n → B ≤ fuel → Tri B (classLoop f fuel n isFirst tbl cnt) d0 pT := by
+  intro n
+  induction n with
+  | zero => intro B isFirst tbl cnt h _; have : B = 0 := by omega
+            subst this; exact tri_zero _ _ _
+  | succ n ih =>
+    intro B isFirst tbl cnt h hf
+    unfold classLoop
+    refine tri_bind (tri_opt0 B [tSemicolon] (by decide) (by decide)) ?_
+    intro b _
+    split
+    · exact tri_pure _ _
+    · cases isFirst with
+      | true =>
+        simp only [Bool.not_true, Bool.false_eq_true, if_false]
+        refine tri_bind (tri_readGlyphList f fuel _ (by simp [d0]; omega)) ?_
+        intro gg _
+        refine tri_bind (tri_classInsert _ _ _ _) ?_
+        intro tbl' _
+        exact ih _ _ _ _ (by simp [d0] at h ⊢; omega) (by simp [d0]; omega)
+      | false =>
+        simp only [Bool.not_false, if_true]
+        refine tri_bind (tri_required_dec _ tComma (by decide) (by decide)) ?_
+        intro _ _
+        refine tri_bind (tri_readGlyphList f fuel _ (by simp [d0]; omega)) ?_
+        intro gg _
+        refine tri_bind (tri_classInsert _ _ _ _) ?_
+        intro tbl' _
+        exact ih _ _ _ _ (by simp [d0] at h ⊢; omega) (by simp [d0]; omega)
+
+theorem tri_adjustRow (fuel : Nat) : ∀ (k B j : Nat), B ≤ fuel → Tri B (adjustRow fuel k j) d0 pT := by
+  intro k
+  induction k with
+  | zero => intro B j _; unfold adjustRow; exact tri_pure _ _
+  | succ k ih =>
+    intro B j h
+    unfold adjustRow
+    split
+    · refine tri_bind (tri_opt0 B [tComma] (by decide) (by decide)) ?_
+      intro _ _
+      refine tri_bind (tri_readPairAdjust fuel _ (by simp [d0]; omega)) ?_
+      intro a _
+      refine tri_bind (ih _ _ (by simp [d0]; omega)) ?_
+      intro rest _
+      exact tri_pure _ _
+    · refine tri_bind (tri_readPairAdjust fuel _ h) ?_
+      intro a _
+      refine tri_bind (ih _ _ (by simp [d0]; omega)) ?_
+      intro rest _
+      exact tri_pure _ _
+
+theorem tri_adjustRows (fuel cols : Nat) : ∀ (k B : Nat), B ≤ fuel → Tri B (adjustRows fuel cols k) d0 pT := by
+  intro k
+  induction k with
+  | zero => intro B _; unfold adjustRows; exact tri_pure _ _
+  | succ k ih =>
+    intro B h
+    unfold adjustRows
+    refine tri_bind (tri_adjustRow fuel _ _ _ h) ?_
+    intro row _
+    refine tri_bind (tri_opt0 _ [tComma, tSemicolon] (by decide) (by decide)) ?_
+    intro _ _
+    refine tri_bind (tri_opt0 _ [tEOL] (by decide) (by decide)) ?_
+    intro _ _
+    refine tri_bind (ih _ (by simp [d0]; omega)) ?_
+    intro rest _
+    exact tri_pure _ _
+
+theorem tri_gpos2Sub (f : Font) (fuel B : Nat) (h : B < fuel) : Tri B (gpos2Sub f fuel) d0 pT := by
+  unfold gpos2Sub
+  refine tri_bind (tri_peek B) ?_
+  intro t _
+  split
+  · refine tri_bind (tri_required _ _) ?_
+    intro _ _
+    refine tri_bind (tri_readGlyphList f fuel _ (by simp [d0]; omega)) ?_
+    intro cov _
+    refine tri_bind (tri_required _ _) ?_
+    intro _ _
+    refine tri_bind (tri_opt0 _ [tEOL] (by decide) (by decide)) ?_
+    intro _ _
+    refine tri_bind (tri_requiredIdentifier _ _) ?_
+    intro _ _
+    refine tri_bind (tri_classLoop f fuel fuel _ true [] 1 (by simp [d0]; omega) (by simp [d0]; omega)) ?_
+    intro c1 _
+    refine tri_bind (tri_opt0 _ [tEOL] (by decide) (by decide)) ?_
+    intro _ _
+    refine tri_bind (tri_requiredIdentifier _ _) ?_
+    intro _ _
+    refine tri_bind (tri_classLoop f fuel fuel _ true [] 1 (by simp [d0]; omega) (by simp [d0]; omega)) ?_
+    intro c2 _
+    refine tri_bind (tri_opt0 _ [tEOL] (by decide) (by decide)) ?_
+    intro _ _
+    refine tri_bind (tri_adjustRows fuel _ _ _ (by simp [d0]; omega)) ?_
+    intro adjust _
+    exact tri_pure _ _
+  · refine tri_bind (tri_pairsLoop _ fuel _ [] (by simp [d0]; omega) ?_) ?_
+    · intro m B' hB
+      have hB' : B' ≤ fuel := by simp [d0] at hB; omega
+      refine tri_bind (tri_readGlyphList f fuel B' hB') ?_
+      intro from_ _
+      split
+      · exact tri_fatal _ _ _ _
+      · refine tri_bind (tri_required _ _) ?_
+        intro _ _
+        refine tri_bind (tri_readPairAdjust fuel _ (by simp [d0]; omega)) ?_
+        intro pair _
+        exact tri_pure _ _
+    · intro res _
+      exact tri_pure _ _
+
+theorem tri_readGpos (f : Font) (fuel B : Nat) (h : B < fuel) :
+    Tri B (readGpos1 f fuel) d0 pT ∧ Tri B (readGpos2 f fuel) d0 pT := by
+  refine ⟨?_, ?_⟩
+  · unfold readGpos1
+    refine tri_bind (tri_header fuel B (by omega)) ?_
+    intro flags _
+    refine tri_bind (tri_subtablesLoop _ fuel _ [] (by simp [d0]; omega) (fun B' hB => tri_gpos1Sub f fuel B' (by simp [d0] at hB; omega))) ?_
+    intro subs _
+    exact tri_pure _ _
+  · unfold readGpos2
+    refine tri_bind (tri_header fuel B (by omega)) ?_
+    intro flags _
+    refine tri_bind (tri_subtablesLoop _ fuel _ [] (by simp [d0]; omega) (fun B' hB => tri_gpos2Sub f fuel B' (by simp [d0] at hB; omega))) ?_
+    intro subs _
+    exact tri_pure _ _
+
+theorem tri_parseLoop (f : Font) (fuel : Nat) : ∀ (n B : Nat) (acc : List Lookup), B ≤ n → B < fuel →
     Tri B (parseLoop f fuel n acc) d0 pT := by
   intro n
   induction n with
@@ -552,8 +847,9 @@ theorem tri_parseLoop (f : Font) (fuel : Nat) : ∀ (n B : Nat) (acc : List Look
         exact tri_fatal _ _ _ _
     · have hnt : nt item = 1 := by simp [nt, hterm]
       have hb : B - nt item ≤ n := by omega
-      have hbf : B - nt item ≤ fuel := by omega
-      obtain ⟨r1, r2, r3, r4⟩ := tri_readGsub f fuel (B - nt item) hbf
+      have hbf : B - nt item < fuel := by omega
+      obtain ⟨r1, r2, r3, r4⟩ := tri_readGsub f fuel (B - nt item) (by omega)
+      obtain ⟨p1, p2⟩ := tri_readGpos f fuel (B - nt item) hbf
       refine tri_mono (B := B - nt item) (Nat.le_refl _) ?_
       split
       · exact tri_pure _ _
@@ -569,6 +865,10 @@ theorem tri_parseLoop (f : Font) (fuel : Nat) : ∀ (n B : Nat) (acc : List Look
       · refine tri_bind r3 ?_; intro l _; exact ih _ _ (by simp [d0]; omega) (by simp [d0]; omega)
       split
       · refine tri_bind r4 ?_; intro l _; exact ih _ _ (by simp [d0]; omega) (by simp [d0]; omega)
+      split
+      · refine tri_bind p1 ?_; intro l _; exact ih _ _ (by simp [d0]; omega) (by simp [d0]; omega)
+      split
+      · refine tri_bind p2 ?_; intro l _; exact ih _ _ (by simp [d0]; omega) (by simp [d0]; omega)
       split
       · exact tri_throw_unmodelled _ _ _
       · exact tri_fatal _ _ _ _
@@ -594,14 +894,15 @@ theorem parseToks_total (f : Font) (toks pre : List Tok) (t : Tok) (e : toks = p
     have : final { toks := toks, backlog := [], last := zeroTok } = t := by simp [final, e]
     rw [this]
     exact ⟨ht, hl t (by simp [e])⟩
-  have hmu : mu { toks := toks, backlog := [], last := zeroTok } < toks.length + 2 := by
+  have hmu : mu { toks := toks, backlog := [], last := zeroTok } < toks.length + 1 := by
     have := wsum_le_length toks
     simp [mu, wsum] at this ⊢
     omega
-  have := tri_parseLoop f (toks.length + 2) (toks.length + 2) (toks.length + 2) [] (Nat.le_refl _) (Nat.le_refl _) _ g hmu
+  have := tri_parseLoop f (toks.length + 2) (toks.length + 2) (toks.length + 1) [] (by omega) (by omega) _ g hmu
   simp only [StateT.run]
   cases hp : parseLoop f (toks.length + 2) (toks.length + 2) [] { toks := toks, backlog := [], last := zeroTok } with
   | error err => rw [hp] at this; simpa using this
   | ok p => simp
+
 
 end SfntV.Dsl
